@@ -213,7 +213,71 @@ func c09corruptRun(seed uint64, gzipped bool) []string {
 	return viol
 }
 
+// cancelfirst <seed> <where>: two requests for the same tile on a cold cache; the first one's client goes away (its context is
+// cancelled) while the fetch both share - the header (where = 0) or the leaf directory (where = 1) - is blocked in the bucket. The
+// second request was never cancelled: it must get what an uncached lookup gives.   Oracle only (the LTS has no cancellation).
+func c09cancelRun(seed uint64, where int) []string {
+	r := &rng{s: seed}
+	sr := newSrvRun(64)
+	v := genVersion(r, 0, 0, 1, false)
+	for tries := 0; tries < 50 && len(v.arch.Dirs) < 2; tries++ { // an archive with a leaf level
+		v = genVersion(r, 0, 0, 1, false)
+	}
+	sr.versions = append(sr.versions, v)
+	sr.install(v)
+	var e Ent
+	for _, d := range v.arch.Dirs { // a tile under a leaf, if there is one
+		if d.Depth > 0 && len(d.Ents) > 0 && d.Ents[0].Run > 0 {
+			e = d.Ents[0]
+		}
+	}
+	if e.Run == 0 {
+		e = v.arch.Ents[0]
+	}
+	z, x, y := pmtiles.IDToZxy(e.ID)
+	ctxA, cancel := context.WithCancel(context.Background())
+	defer cancel()
+	sr.startCtx(ctxA, 0, uint64(z), uint64(x), uint64(y), 2)
+	relAll := func(n int) {
+		for g := 0; g < n; g++ {
+			pend := sr.gate.pendingList()
+			if len(pend) == 0 {
+				return
+			}
+			sr.release(pend[0], "ok")
+		}
+	}
+	if where == 1 {
+		relAll(2) // header, root directory: the first request is now blocked in the leaf fetch (if the archive has leaves)
+	}
+	sr.gate.pendingList()
+	sr.start(0, uint64(z), uint64(x), uint64(y), 2) // joins the fetch in flight
+	sr.gate.pendingList()
+	cancel()
+	relAll(40)
+	sr.gate.releaseAll()
+	pmtiles.VerifSetTraceSink(nil)
+	b := sr.reqs[1]
+	st, body := v.answerOf(uint64(z), uint64(x), uint64(y), 2)
+	if !b.done {
+		return []string{"the request that was never cancelled does not complete"}
+	}
+	if b.status != st || (st == 200 && !bytes.Equal(b.body, body)) {
+		return []string{fmt.Sprintf("a request that shared a fetch with a request whose client went away is answered %d; an uncached lookup gives %d (its own context was never cancelled)", b.status, st)}
+	}
+	return nil
+}
+
 func c09(r *rng, tier string, o *out) {
+	for c := 0; c < 4; c++ {
+		line := fmt.Sprintf("cancelfirst %d %d", r.next()%1000000, c%2)
+		impl, viol := runCase("C09", line)
+		idx := o.emit(line, impl, true)
+		o.count("first-requester-cancelled")
+		for _, v := range viol {
+			o.violation(idx, v)
+		}
+	}
 	for c := 0; c < 4; c++ {
 		line := fmt.Sprintf("corruptleaf %d %d", r.next()%1000000, c%2)
 		impl, viol := runCase("C09", line)
@@ -445,6 +509,75 @@ func c08microRun(seed uint64, variant int) []string {
 	return sr.viol
 }
 
+// held <seed>: a tile read that takes effect before a replacement and returns after it. The cache is warm with v1; request A's
+// conditional tile read is answered by the bucket (from v1) but its delivery is held; the replacement v1 -> v2 completes; request B
+// for the same tile begins and runs to completion; then A's read is delivered. A overlapped v1 and may answer it; B began after the
+// replacement: a 200 must be v2's tile.   Oracle only (in the LTS a read is one step).
+func c08heldRun(seed uint64) []string {
+	r := &rng{s: seed}
+	sr := newSrvRun(64)
+	mk := func(tag int) *srvVersion {
+		vr := &rng{s: seed + uint64(tag)*7919}
+		ir := &rng{s: seed * 31}
+		var es []Ent
+		id, off := uint64(ir.intn(3)), uint64(0)
+		for i := 0; i < 4+ir.intn(4); i++ {
+			l := uint32(4 + vr.intn(30))
+			es = append(es, Ent{ID: id, Off: off, Len: l, Run: 1})
+			off += uint64(l)
+			id += 1 + uint64(ir.intn(3))
+		}
+		zmax, _, _ := pmtiles.IDToZxy(es[len(es)-1].ID + 1)
+		a := buildArchive(vr, es, vr.bytes(int(off)), archOpts{tree: treeOpts{depth: 0, fan: 2, gzip: true, shorthand: true}, tileType: 2, tileComp: 1, meta: fmt.Sprintf(`{"v":%d}`, tag), minZoom: 0, maxZoom: zmax})
+		v := &srvVersion{id: len(sr.versions), name: 0, tag: tag, arch: a}
+		sr.versions = append(sr.versions, v)
+		return v
+	}
+	runAll := func() {
+		for g := 0; g < 40; g++ {
+			pend := sr.gate.pendingList()
+			if len(pend) == 0 {
+				return
+			}
+			for _, c := range pend {
+				if !strings.HasSuffix(c, "#held") {
+					sr.release(c, "ok")
+					break
+				}
+			}
+			if len(pend) == 1 && strings.HasSuffix(pend[0], "#held") {
+				return
+			}
+		}
+	}
+	v1 := mk(1)
+	sr.install(v1)
+	e := v1.arch.Ents[r.intn(len(v1.arch.Ents))]
+	z, x, y := pmtiles.IDToZxy(e.ID)
+	sr.start(0, uint64(z), uint64(x), uint64(y), 2) // warm the cache
+	runAll()
+	sr.start(0, uint64(z), uint64(x), uint64(y), 2) // A: header and directory from the cache, blocked in its tile read
+	pend := sr.gate.pendingList()
+	if len(pend) != 1 {
+		sr.gate.releaseAll()
+		pmtiles.VerifSetTraceSink(nil)
+		return nil // not the schedule this run is about
+	}
+	sr.release(pend[0], "hold") // the bucket answers from v1; the answer is not delivered yet
+	sr.gate.pendingList()
+	sr.install(mk(2))                               // the replacement completes
+	sr.start(0, uint64(z), uint64(x), uint64(y), 2) // B begins after it
+	runAll()
+	for _, c := range sr.gate.pendingList() { // now A's read returns
+		sr.release(c, "ok")
+	}
+	runAll()
+	sr.gate.releaseAll()
+	sr.checkResponses(false)
+	pmtiles.VerifSetTraceSink(nil)
+	return sr.viol
+}
+
 // c08metaRun: one metadata or TileJSON request, every placement of up to two replacements among its bucket calls, cold or warm
 // cache, with or without a replacement completed beforehand. Versions differ in metadata, zoom range and layout.   case: metasched ...
 func c08metaRun(seed uint64, kind string, warm, pre, p1, p2 int) *srvRun {
@@ -647,6 +780,19 @@ func c08(r *rng, tier string, o *out) {
 			}
 		}
 	}
+	nh := 6
+	if tier == "thorough" || tier == "shard" {
+		nh = 40
+	}
+	for c := 0; c < nh; c++ {
+		line := fmt.Sprintf("held %d", r.next()%1000000)
+		impl, viol := runCase("C08", line)
+		idx := o.emit(line, impl, true)
+		o.count("read_answered_before_replacement_delivered_after")
+		for _, v := range viol {
+			o.violation(idx, v)
+		}
+	}
 	nm := 12
 	if tier == "thorough" {
 		nm = 300
@@ -730,6 +876,26 @@ func srvReplay(line string) (string, []string) {
 		fmt.Sscan(f[1], &seed)
 		fmt.Sscan(f[2], &gz)
 		viol := c09corruptRun(seed, gz == 1)
+		if len(viol) > 0 {
+			return "violated", viol
+		}
+		return "ok", nil
+	}
+	if f[0] == "held" {
+		var seed uint64
+		fmt.Sscan(f[1], &seed)
+		viol := c08heldRun(seed)
+		if len(viol) > 0 {
+			return "violated", viol
+		}
+		return "ok", nil
+	}
+	if f[0] == "cancelfirst" {
+		var seed uint64
+		var where int
+		fmt.Sscan(f[1], &seed)
+		fmt.Sscan(f[2], &where)
+		viol := c09cancelRun(seed, where)
 		if len(viol) > 0 {
 			return "violated", viol
 		}
